@@ -267,7 +267,16 @@ def parse_rvalue(s):
             return ("repeat", parse_operand(m2.group(1)), int(m2.group(2)))
         return ("array", [parse_operand(x) for x in split_top(inner)])
     if s.startswith("{closure@"):
-        return ("closure", s)
+        j = find_matching(s, 0)
+        tag = s[:j + 1]
+        rest = s[j + 1:].strip()
+        fields = []
+        if rest.startswith("{") and rest.endswith("}"):
+            for item in split_top(rest[1:-1]):
+                if ":" in item:
+                    k, v = item.split(":", 1)
+                    fields.append((k.strip(), parse_operand(v)))
+        return ("closure", tag, fields)
     # Struct { f: op, ... }
     m = re.fullmatch(r"([^\s{(]+(?:<.*>)?)\s*\{(.*)\}", s, flags=re.S)
     if m and "::" not in m.group(2)[:0]:
